@@ -127,6 +127,11 @@ def gen_grammars(prop, tier, n, profile):
                 for i, r in enumerate(g.rules):
                     if rnd.random() < 0.6: g.rules[i] = gg.Rule(r.lhs, r.rhs, r.prec, 'x')
                 g.note += '+ctxftors'
+            elif rnd.random() < 0.3 and len({t.text[0] for t in g.terms}) == len(g.terms) and not any(t.kind == 'r' for t in g.terms):
+                # precedence and associativity declared on custom terms (use_lexer) must resolve conflicts like on any other term
+                g = gg.to_custom_lexer(g, rnd)
+                tm = g.lexspec[0]
+                g.lexspec = (tm, [len(g.terms[tm[b]].text) if tm[b] >= 0 and ord(g.terms[tm[b]].text[0]) == b else 1 for b in range(256)])
             add(g)
     elif profile == 'recovery':     # C08
         for g in gg.err_core(): add(g)
@@ -151,8 +156,30 @@ def gen_grammars(prop, tier, n, profile):
         st = gg.grammar_stream(rnd, want_lr1=0.85)
         for g in core[:12] + gg.err_core()[:4]:
             if gg.classify(ref_lr1.build(g)) not in ('rr', 'acc'): add(gg.to_custom_lexer(g, rnd))
+        st2 = gg.grammar_stream(rnd, want_lr1=0.0)
+        # precedence / associativity declared on custom terms, including the default precedence 0 with an associativity
+        from .grammar import simple
+        for spec, pa in (('E->E - E | E + E | i', {'-': (0, 'l'), '+': (0, 'r')}), ('E->E - E | E * E | i', {'-': (0, 'l'), '*': (1, 'l')}),
+                         ('E->E - E | E ^ E | - E | i', {'-': (-1, 'l'), '^': (0, 'r')}), ('E->E < E | i', {'<': (0, 'n')})):
+            g = simple(spec)
+            for j, t in enumerate(g.terms):
+                if t.text in pa: g.terms[j] = gg.Term('c', t.text, pa[t.text][0], pa[t.text][1])
+            g = gg.to_custom_lexer(g, rnd); tm = g.lexspec[0]
+            g.lexspec = (tm, [1] * 256); g.note = 'c18:precedence-on-custom-terms'
+            add(g)
         while len(out) < n:
             g, tb = next(st)
+            if rnd.random() < 0.25:
+                # grammars with S/R conflicts resolved by precedence/associativity of the custom terms
+                x = rnd.random()
+                if x < 0.5:
+                    g = gg.expr_grammar(rnd)
+                    if len({t.text[0] for t in g.terms}) != len(g.terms) or any(t.kind == 'r' for t in g.terms): continue
+                else:
+                    g, tb = next(st2)
+                    if gg.classify(tb) != 'sr': continue
+                    g = gg.with_precedence(g, rnd)
+                g.rules = [gg.Rule(r.lhs, r.rhs, r.prec, 'f') for r in g.rules]
             if rnd.random() < 0.25: g = gg.add_error_rules(g, rnd)
             if rnd.random() < 0.4: g = gg.decorate(g, rnd, strings=0, typed=0)
             if gg.classify(ref_lr1.build(g)) in ('rr', 'acc'): continue
@@ -678,8 +705,14 @@ def c07(tier):
     for g in gg.core_grammars():
         if ref_lr1.build(g).lr1: add(g)
     for g in gg.err_core()[:4]: add(g)
+    from .grammar import simple
+    for spec, pats in (('S->L\nL->eps | L I\nI->s ;', {'s': '"[^"]*"'}), ('S->L\nL->eps | L w ;', {'w': '[^;]+'}), ('S->k v | S , k v', {'k': '[a-z]+', 'v': '=.'})):
+        g = simple(spec)
+        for j, t in enumerate(g.terms):
+            if t.text in pats: g.terms[j] = gg.Term('r', pats[t.text], t.prec, t.assoc)
+        g.note = 'c07:nul-accepting-terms'; add(g)
     st = gg.grammar_stream(rnd, want_lr1=0.9)
-    want = 44 if q else 400
+    want = 47 if q else 400
     while len(gs) < want:
         g, tb = next(st)
         x = rnd.random()
